@@ -69,6 +69,12 @@ def bulk_record(inp):
         r['pair'] = [[bits(jaccarddist(qa[a], ra[b])) if ra[b] is not None else -2 for b in range(len(pool))] for a in range(len(pool))]
         refs = container(inp['cont'], [pool[i - 1] for i in inp['r']], rd)
         queries = [qa[i - 1] for i in inp['q']]
+        if inp.get('qsrc') == 'refs-slice':
+            # the queries are a contiguous slice of the reference collection itself (an earlier read of the same object that is still
+            # alive while later chunks are read), and one more slice is read and dropped in between
+            queries = refs[0:len(inp['q'])]
+            _ = refs[len(inp['r']) - 1:len(inp['r'])]
+            r['q'] = list(inp['r'][:len(inp['q'])])
         idx = inp['idx']
         if idx is not None and inp.get('idx_as') == 'array':
             idx = np.asarray(idx, dtype=np.intp)
@@ -182,6 +188,10 @@ class Matrix(Fam):
                                     yield dict(op='matrix', pool=pool, q=[4, 1, 5, 2][: 2 + (threads % 3)] if pname == 'basic' else [4, 2, 3, 6][: 2 + (threads % 3)], r=rorder, idx=idx, idx_as=('array' if chunk == 3 else 'list'),
                                                qdtype=qd, rdtype=rd, cont=cont, chunk=chunk, threads=threads, rep=rep,
                                                outbuf=['none', 'given', 'strided'][(threads + (chunk or 0)) % 3])
+                    if cont in ('hdf5', 'array', 'view', 'window'):
+                        for chunk in (None, 1, 2, 3):
+                            yield dict(op='matrix', pool=pool, q=[0, 0, 0][: 2 + (chunk or 0) % 2], r=rorder, idx=None, idx_as='list', qdtype=qd, rdtype=rd, cont=cont,
+                                       chunk=chunk, threads=1, rep=0, outbuf='none', qsrc='refs-slice')
                     for threads in (1, 2, 16):
                         for ob in ('none', 'given', 'strided'):
                             yield dict(op='array', pool=pool, q=[5] if pname == 'basic' else [4], r=rorder, idx=None, qdtype=qd, rdtype=rd, cont=cont, chunk=None, threads=threads, outbuf=ob)
